@@ -77,6 +77,11 @@ func (s *storage) delete(br blob.Ref) error {
 		return err
 	}
 
+	if meta.size == 0 {
+		// Nothing to punch or zero; fallocate rejects a zero length.
+		return nil
+	}
+
 	// punch hole, if possible
 	if punchHole != nil {
 		err = punchHole(f, meta.offset, int64(meta.size))
